@@ -441,6 +441,9 @@ class Network(Cached):
         """
         #  Convert to Numpy array and get number of nodes
         edges = np.array(edge_list)
+        #  An edgeless network still has an (E, 2) edge array
+        if edges.size == 0:
+            edges = np.zeros((0, 2), dtype=int)
 
         if n_nodes is None:
             N = edges.max() + 1
@@ -623,6 +626,9 @@ class Network(Cached):
 
         #  Extract edge list
         edges = np.array(graph.get_edgelist())
+        #  An edgeless network still has an (E, 2) edge array
+        if edges.size == 0:
+            edges = np.zeros((0, 2), dtype=int)
 
         #  Symmetrize if undirected network
         if not directed:
